@@ -1031,6 +1031,9 @@ def solve(objfun, x0, h=None, lh=None, prox_uh=None, argsf=(), argsh=(), argspro
     if exit_info is None and npt < n + 1:
         exit_info = ExitInformation(EXIT_INPUT_ERROR, "npt must be >= n+1 for linear models with inexact interpolation")
 
+    if exit_info is None and npt > (n + 1) * (n + 2) // 2 and not params("init.random_initial_directions"):
+        exit_info = ExitInformation(EXIT_INPUT_ERROR, "npt must be <= (n+1)(n+2)/2 when starting from coordinate directions")
+
     if exit_info is None and rhobeg <= 0.0:
         exit_info = ExitInformation(EXIT_INPUT_ERROR, "rhobeg must be strictly positive")
 
